@@ -61,7 +61,7 @@ T_VARIANTS = {
     "t7": ["uint16", "int16",  "idref",  "int64",  "idref",  "uint8", "uint16", "idref",  "int32", "uint32", "uint16", "int16",  "int8",   "uint8", "int64"],
     "t8": ["uint32", "string", "u-eu",   "dec2",   "dec2",   "u-is",  "idref",  "u-eu",   "u-is",  "u-eu",   "int32",  "u-eu",   "dec2",   "u-eu", "dec2"],
     "t9": ["dec2",   "uint8",  "int8",   "enum",   "int16",  "enum",  "dec2",   "int8",   "int64", "int8",   "boolean", "int64",  "uint16", "int64", "boolean"],
-    "t10": ["u-bu",  "u-iu",   "u-iu",   "u-bu",   "u-bs",   "u-bu",  "u-iu",   "uint8",  "u-bu",  "int32",  "string", "u-iu",   "u-bu",   "u-bu",  "u-bu"],
+    "t10": ["u-bu",  "u-iu",   "u-bu",   "u-bu",   "u-bs",   "u-bu",  "u-iu",   "uint8",  "u-bu",  "int32",  "string", "u-iu",   "u-bu",   "u-bu",  "u-bu"],
     "t11": ["u-lb",  "u-ul",   "u-iu",   "u-ul",   "u-ul",   "u-lb",  "u-ul",   "u-lb",   "u-ul",  "u-ul",   "u-lb",   "u-lb",   "u-ul",   "u-lb",  "u-lb"],
 }
 OC_VARIANTS = {
